@@ -33,7 +33,7 @@ Record state := mkState {
   attempts : list attempt;   (* every message sent, in send order; index = request id handed out by the fake pool *)
   cur_host : option Z;   (* self._current_host *)
   cur_conn : option Z;   (* self._connection (one connection per host: identified by the host) *)
-  cur_req : option nat;   (* self._req_id (set by send_request only) *)
+  cur_req : option nat;   (* self._req_id (set by _query) *)
   retries : Z;   (* self._query_retries *)
   timers : list timer;   (* every timer ever created by create_timer, in creation order *)
   cur_timer : option nat;   (* self._timer (index into timers) *)
